@@ -5,7 +5,8 @@
 //
 //	variant  int (internal/queue.PriorityQueue, reached through the hook in hooks/queue) | pub (queue.PriorityQueue)
 //	cmp      asc | desc | mod3 (compare by floor-mod 3: many ties)
-//	ops      e<int> Enqueue, d Dequeue, p Peek, l Len
+//	ops      e<int> Enqueue, d Dequeue, p Peek, l Len; a trailing '~' (e5~, d~, p~) suppresses the
+//	         observation after that operation (sparse-observation histories): its entry is "<answer>|-|-"
 //
 // stdout: one line per history; per op "<answer>|<Len()>|<heap array data[1:]>" joined by ';'.
 // A run-time panic is the answer "panic" and ends the history; a call that does not return is "hang".
@@ -140,13 +141,20 @@ func runHistory(f []string) string {
 	}
 	var sb strings.Builder
 	for i, op := range f[3:] {
+		// a trailing '~' means: do not observe (no Len(), no array dump) after this operation
+		silent := strings.HasSuffix(op, "~")
+		op = strings.TrimSuffix(op, "~")
 		ans := doOp(q, op)
 		if i > 0 {
 			sb.WriteByte(';')
 		}
 		sb.WriteString(ans)
 		sb.WriteByte('|')
-		sb.WriteString(observe(q))
+		if silent && ans != "panic" {
+			sb.WriteString("-|-")
+		} else {
+			sb.WriteString(observe(q))
+		}
 		if ans == "panic" {
 			break
 		}
